@@ -291,5 +291,21 @@ def conditioned_layers(x, imf, opts, envelope_opts, extrema_opts, tie=1e-7, stop
                         ignore_input_ties=(j == 0), **opts)
         if r.kind == 'error' or r.note or r.margin_stop <= stop or r.margin_tie <= tie or r.margin_par <= 1e-4:
             break
+        # measured sensitivity to rounding: the same extraction (in this reference, not in the code under test) of the
+        # input times (1 + 2^-30) - a factor far too close to 1 to move anything scale-dependent, but one that re-rounds
+        # every sample. Long iterations (hundreds of passes at a small step size) can amplify that last-bit noise to 1e-4
+        # of the signal although every single decision has a comfortable margin; such a layer says nothing about the
+        # transform under test.
+        if r.imf is not None and r.niters > 8:
+            f = 1.0 + 2.0 ** -30
+            r2 = ref_extract(res * f, envelope_opts=envelope_opts, extrema_opts=extrema_opts, hard_cap=1200,
+                             ignore_input_ties=(j == 0), **opts)
+            sc = np.abs(res).max() or 1.0
+            if r2.imf is None or r2.niters != r.niters or np.abs(r2.imf / f - r.imf).max() / sc > 1e-9:
+                SENSITIVE[0] += 1
+                break
         good += 1
     return good
+
+
+SENSITIVE = [0]
